@@ -174,32 +174,41 @@ def get_atomic_sequence(xsd_type: Optional[XsdTypeProtocol],
         error: Union[None, ValueError, ArithmeticError] = None
         code = 'FORG0001'
 
-        for value in iter_atomic_values(xsd_type):
-            try:
-                if xsd_type.is_list():
-                    for item in text.split():
-                        yield decode(item)
+        # Each item is decoded with the first prototype that accepts it (the member
+        # types of a union), nothing is yielded for an item before a prototype fits.
+        items = text.split() if xsd_type.is_list() else [text]
+        values = list(iter_atomic_values(xsd_type))
+        results: list[aliases.AtomicType] = []
+        for item in items:
+            error = None
+            for value in values:
+                try:
+                    results.append(decode(item))
+                except (ArithmeticError, ValueError) as err:
+                    if error is None:
+                        error = err
+                        if isinstance(err, ArithmeticError):
+                            if isinstance(value, dt.AbstractDateTime):
+                                code = 'FODT0001'
+                            elif isinstance(value, dt.Duration):
+                                code = 'FODT0002'
+                            else:
+                                code = 'FOCA0002'
                 else:
-                    yield decode(text)
-            except (ArithmeticError, ValueError) as err:
-                if error is None:
-                    error = err
-                    if isinstance(err, ArithmeticError):
-                        if isinstance(value, dt.AbstractDateTime):
-                            code = 'FODT0001'
-                        elif isinstance(value, dt.Duration):
-                            code = 'FODT0002'
-                        else:
-                            code = 'FOCA0002'
+                    break
             else:
-                return
+                break  # no prototype or no one fits
         else:
-            if error is not None:
-                raise xpath_error(code, error, namespaces=namespaces)
-            elif hasattr(xsd_type, 'decode'):
-                yield xsd_type.decode(text or '')
-            else:
-                yield dt.UntypedAtomic(text if isinstance(text, str) else '')
+            if values:
+                yield from results
+                return
+
+        if error is not None:
+            raise xpath_error(code, error, namespaces=namespaces)
+        elif hasattr(xsd_type, 'decode'):
+            yield xsd_type.decode(text or '')
+        else:
+            yield dt.UntypedAtomic(text if isinstance(text, str) else '')
 
 
 __all__ = ['get_atomic_sequence']
